@@ -155,7 +155,7 @@ func contract_MarshalOptions_marshal(o MarshalOptions, b []byte, m protoreflect.
 
 // appendSpeculativeLength reserves one byte for the length and reports where.
 //
-// @ props C04 C08
+// @ props C03 C04 C08
 // @ mode int
 func contract_appendSpeculativeLength(b []byte) (r []byte, pos int) {
 	modifiesTail(b)
@@ -169,7 +169,7 @@ func contract_appendSpeculativeLength(b []byte) (r []byte, pos int) {
 // prefix ++ varint(len(payload)) ++ payload: the prefix and the payload bytes are kept, the
 // length is encoded minimally in front of the payload, whatever size it needs.
 //
-// @ props C04 C08
+// @ props C03 C04 C08
 // @ mode int
 // @ loop 1 invariant 0 <= i && i <= msiz-1 && len(b) == len(old(b))+i && (sameArray(b, old(b)) || freshSlice(b))
 // @ loop 1 invariant forallIn(b, 0, len(old(b)), func(k int, e byte) bool { return e == old(b[k]) })
